@@ -46,15 +46,6 @@ Theorem c20_only_open_ticket_undeclared : forall s,
 Proof. exact saver_ok_table. Qed.
 Print Assumptions c20_only_open_ticket_undeclared.
 
-(* "among the listed ones" is up to letter case (NewResultSpecs merges categories with EqualFold): literal
-   membership is false of the model *)
-Theorem c20_category_literally_listed_refuted :
-  exists A tr, forallb valid_flow A = true /\ no_open_ticket A = true /\ accepts [] A tr = true /\
-    exists fid nc f, In (fid, nc) (saved_results tr) /\ lookup_flow A fid = Some f /\
-      forall s, In s (inspect_results f) -> rs_key s = snakify (fst nc) -> ~ In (snd nc) (rs_cats s).
-Proof. exact category_literally_listed_refuted. Qed.
-Print Assumptions c20_category_literally_listed_refuted.
-
 (* ... and the result list is exact the other way: keys pairwise different, each declared by an action or router
    of some node of the flow *)
 Theorem c20_results_exact : forall f,
